@@ -1,13 +1,250 @@
-import Model.GSync
-/-! # C02 (work in progress: invariant proof follows) -/
+import Lemmas.GSyncInv
+import Lemmas.GSyncSum
+/-!
+# C02 — waiters released at zero, consistent at rest, Wait never blocks
+
+All statements are about every state reachable by any client program under any schedule
+(`NonNeg`: callers do not drive the count negative), examined at points where no `Add/Inc/Dec`
+call is in flight (`quiescent`).
+-/
 namespace GSync
 
+def begunSum (ts : List Thread) : Int := (ts.map (fun t => t.begun.sum)).sum
+
+theorem quiescent_lock_free (s : St) (h : Inv s) (hq : quiescent s = true) : s.sh.lock = none := by
+  cases hl : s.sh.lock with
+  | none => rfl
+  | some i =>
+    exfalso
+    obtain ⟨t, ht⟩ := h.holder i hl
+    have hc := (h.th i t ht).mutex.2 hl
+    have hm : t ∈ s.threads := List.mem_of_getElem? ht
+    simp only [quiescent, List.all_eq_true] at hq
+    have := hq t hm
+    cases hp : t.pc <;> simp [hp, inCrit, inAdd] at hc this
+
+/-- Whenever all `Add/Inc/Dec` calls have returned, the counter (what `Count()` loads) equals the
+sum of the deltas of all calls begun so far. -/
+theorem quiescent_count (progs : List (List Call)) (sched : List Nat)
+    (hq : quiescent (run true (init true progs) sched) = true) :
+    (run true (init true progs) sched).sh.count = begunSum (run true (init true progs) sched).threads := by
+  have h2 := run_inv2 _ sched (init_inv2 progs)
+  rw [h2.cnt, addedSum, begunSum]
+  congr 1
+  apply List.map_congr_left
+  intro t ht
+  obtain ⟨i, hi⟩ := List.mem_iff_getElem?.1 ht
+  have hba := h2.ba i t hi
+  simp only [quiescent, List.all_eq_true] at hq
+  have hna := hq t ht
+  unfold BA at hba
+  cases hp : t.pc <;> simp [hp, inAdd] at hna hba <;> rw [hba]
+
+theorem step_self (s : St) (i : Nat) (t : Thread) (ht : s.threads[i]? = some t) :
+    (step true s i).threads[i]? = some (tstep true s.sh i t).2.1 := by
+  have hi : i < s.threads.length := (List.getElem?_eq_some_iff.1 ht).1
+  unfold step stepL
+  rw [ht]
+  simp [hi]
+
+/-- `Count()` returns the counter: the value recorded by a `Count` call is the counter at its load. -/
+theorem count_call_returns_counter (s : St) (i : Nat) (t : Thread) (ht : s.threads[i]? = some t)
+    (hp : t.pc = .cLoad) :
+    ∃ t', (step true s i).threads[i]? = some t' ∧ t'.rets = s.sh.count :: t.rets := by
+  refine ⟨(tstep true s.sh i t).2.1, step_self s i t ht, ?_⟩
+  simp only [tstep, hp]
+  unfold enter; split <;> simp
+
+/-- At rest with count zero, every channel ever returned by `Wait()` is closed. -/
+theorem quiescent_zero_all_closed (progs : List (List Call)) (sched : List Nat)
+    (hnn : NonNeg true (init true progs) sched)
+    (hq : quiescent (run true (init true progs) sched) = true)
+    (h0 : (run true (init true progs) sched).sh.count = 0) :
+    ∀ t ∈ (run true (init true progs) sched).threads, ∀ r ∈ t.recs,
+      isClosed (run true (init true progs) sched).sh r.ch = true := by
+  intro t ht r hr
+  have hinv := reachable_inv progs sched hnn
+  have hrest := hinv.sh.rest (quiescent_lock_free _ hinv hq)
+  obtain ⟨i, hi⟩ := List.mem_iff_getElem?.1 ht
+  have hrec := (hinv.th i t hi).recs r hr
+  have hw0 := hrest.1.1 h0
+  simp only [isClosed, Bool.or_eq_true, beq_iff_eq, List.contains_iff_mem]
+  by_cases hc : r.ch = 0
+  · exact Or.inl hc
+  · exact Or.inr (hrest.2 r.ch (by omega) hrec.lt (by rw [hw0]; exact hc))
+
+/-- At rest with a positive count, the installed channel — the one a new `Wait()` returns — is
+a real channel that is still open. -/
+theorem quiescent_pos_fresh_wait_open (progs : List (List Call)) (sched : List Nat)
+    (hnn : NonNeg true (init true progs) sched)
+    (hq : quiescent (run true (init true progs) sched) = true)
+    (hpos : 0 < (run true (init true progs) sched).sh.count) :
+    (run true (init true progs) sched).sh.wchan ≠ 0 ∧
+    isClosed (run true (init true progs) sched).sh (run true (init true progs) sched).sh.wchan = false := by
+  have hinv := reachable_inv progs sched hnn
+  have hrest := hinv.sh.rest (quiescent_lock_free _ hinv hq)
+  have hw : (run true (init true progs) sched).sh.wchan ≠ 0 := fun h => by
+    have := hrest.1.2 h; omega
+  refine ⟨hw, ?_⟩
+  have := hinv.sh.wopen hw
+  simp [isClosed, hw, this]
+
+/-! ### Wait never blocks: two own steps suffice whenever no `Add` operation executes -/
+
+/-- along `more`, every step is taken by a goroutine that is not inside `Add` at that moment
+(every other goroutine has finished, is between calls, or is itself in `Wait`/`Count`) -/
+def NoAddSteps (s : St) : List Nat → Prop
+  | [] => True
+  | a :: rest => (∀ u, s.threads[a]? = some u → inAdd u.pc = false) ∧ NoAddSteps (step true s a) rest
+
+theorem nonadd_step_shared (s : St) (j : Nat) (h : ∀ u, s.threads[j]? = some u → inAdd u.pc = false) :
+    (step true s j).sh.count = s.sh.count ∧ (step true s j).sh.wchan = s.sh.wchan ∧
+    (step true s j).sh.lock = s.sh.lock := by
+  unfold step stepL
+  cases hu : s.threads[j]? with
+  | none => simp
+  | some u =>
+    have := h u hu
+    cases hp : u.pc <;> simp [hp, inAdd] at this <;> simp only [tstep, hp]
+    · simp
+    · simp
+    · split <;> simp
+    · simp
+
+theorem step_other_thread (s : St) (i j : Nat) (hij : j ≠ i) :
+    (step true s j).threads[i]? = s.threads[i]? := by
+  unfold step stepL
+  cases hu : s.threads[j]? with
+  | none => simp
+  | some u => simp [List.getElem?_set, hij]
+
+theorem tstep_recs_len (sh : Shared) (i : Nat) (t : Thread) :
+    t.recs.length ≤ (tstep true sh i t).2.1.recs.length := by
+  cases hp : t.pc with
+  | idle => simp [tstep, hp]
+  | aLock d => simp only [tstep, hp]; cases sh.lock <;> simp
+  | aAdd d =>
+    simp only [tstep, hp, finishAdd]
+    by_cases h1 : sh.count + d = 0
+    · rw [if_pos h1]; simp
+    · by_cases h2 : 0 < d ∧ sh.count + d = d
+      · rw [if_neg h1, if_pos h2]; simp
+      · rw [if_neg h1, if_neg h2]; simp
+  | aSwap v => simp only [tstep, hp, finishAdd]; split <;> simp
+  | aCloseOld v ch => simp [tstep, hp, finishAdd]
+  | aCAS v => simp only [tstep, hp, finishAdd]; split <;> simp
+  | aCloseNew v ch => simp [tstep, hp, finishAdd]
+  | aUnlock v => simp [tstep, hp, enter_recs]
+  | wCount => simp [tstep, hp]
+  | wChan c => simp only [tstep, hp]; split <;> simp [enter_recs]
+  | cLoad => simp [tstep, hp, enter_recs]
+
+/-- where the waiting goroutine `i` stands: `k` own steps still needed -/
+def Phase (n : Nat) (s : St) (i : Nat) : Nat → Prop
+  | 2 => ∃ t, s.threads[i]? = some t ∧ t.pc = .wCount ∧ t.recs.length = n
+  | 1 => ∃ t, s.threads[i]? = some t ∧ t.pc = .wChan s.sh.count ∧ t.recs.length = n
+  | _ => ∃ t, s.threads[i]? = some t ∧ n < t.recs.length
+
+theorem wait_progress (n : Nat) (i : Nat) (more : List Nat) :
+    ∀ (k : Nat) (s : St), k ≤ 2 → Inv s → s.sh.lock = none → Phase n s i k → NoAddSteps s more →
+      k ≤ more.count i → Phase n (run true s more) i 0 := by
+  induction more with
+  | nil =>
+    intro k s _ _ _ hph _ hk
+    have : k = 0 := by simpa using hk
+    subst this; simpa [run] using hph
+  | cons a rest ih =>
+    intro k s hk2 hinv hlk hph hno hk
+    obtain ⟨hna, hno'⟩ := hno
+    have hsh := nonadd_step_shared s a hna
+    have hinv' : Inv (step true s a) := step_inv s a hinv (by rw [hsh.1]; exact hinv.sh.nn)
+    have hlk' : (step true s a).sh.lock = none := by rw [hsh.2.2]; exact hlk
+    simp only [run, List.foldl_cons]
+    by_cases hai : a = i
+    · subst hai
+      -- the waiting goroutine itself steps
+      have hk' : k - 1 ≤ rest.count a := by simp at hk; omega
+      refine ih (k - 1) (step true s a) (by omega) hinv' hlk' ?_ hno' hk'
+      have hcases : k = 0 ∨ k = 1 ∨ k = 2 := by omega
+      rcases hcases with rfl | rfl | rfl
+      · obtain ⟨t, ht, hlen⟩ := hph
+        refine ⟨(tstep true s.sh a t).2.1, step_self s a t ht, ?_⟩
+        have := tstep_recs_len s.sh a t; omega
+      · obtain ⟨t, ht, hpc, hlen⟩ := hph
+        have hrest := hinv.sh.rest hlk
+        have hret : s.sh.count = 0 ∨ (0 < s.sh.count ∧ s.sh.wchan ≠ 0) := by
+          by_cases h0 : s.sh.count = 0
+          · exact Or.inl h0
+          · have := hinv.sh.nn
+            exact Or.inr ⟨by omega, fun hw => h0 (hrest.1.2 hw)⟩
+        refine ⟨(tstep true s.sh a t).2.1, step_self s a t ht, ?_⟩
+        simp only [tstep, hpc, if_pos hret, enter_recs]
+        simp [hlen]
+      · obtain ⟨t, ht, hpc, hlen⟩ := hph
+        refine ⟨(tstep true s.sh a t).2.1, step_self s a t ht, ?_, ?_⟩
+        · rw [hsh.1]; simp [tstep, hpc]
+        · simp [tstep, hpc, hlen]
+    · -- another goroutine steps: goroutine `i`, the counter and the channel are untouched
+      have hk' : k ≤ rest.count i := by
+        simpa [List.count_cons, hai] using hk
+      refine ih k (step true s a) hk2 hinv' hlk' ?_ hno' hk'
+      have hth := step_other_thread s i a hai
+      have hcases : k = 0 ∨ k = 1 ∨ k = 2 := by omega
+      rcases hcases with rfl | rfl | rfl
+      · obtain ⟨t, ht, hlen⟩ := hph
+        exact ⟨t, by rw [hth]; exact ht, hlen⟩
+      · obtain ⟨t, ht, hpc, hlen⟩ := hph
+        exact ⟨t, by rw [hth]; exact ht, by rw [hsh.1]; exact hpc, hlen⟩
+      · obtain ⟨t, ht, hpc, hlen⟩ := hph
+        exact ⟨t, by rw [hth]; exact ht, hpc, hlen⟩
+
+/-- `Wait()` never waits for a call that has not started: from any reachable state in which no
+`Add` is in flight, a goroutine at the start of `Wait` has returned (recorded a result) after
+its second own step, whatever the other goroutines do in between, as long as no `Add`
+operation executes. -/
+theorem wait_returns_in_two_steps (progs : List (List Call)) (sched : List Nat)
+    (hnn : NonNeg true (init true progs) sched)
+    (hq : quiescent (run true (init true progs) sched) = true)
+    (i : Nat) (t : Thread) (ht : (run true (init true progs) sched).threads[i]? = some t)
+    (hpc : t.pc = .wCount) (more : List Nat)
+    (hno : NoAddSteps (run true (init true progs) sched) more) (h2 : 2 ≤ more.count i) :
+    ∃ t', (run true (run true (init true progs) sched) more).threads[i]? = some t' ∧
+      t.recs.length < t'.recs.length := by
+  have hinv := reachable_inv progs sched hnn
+  have := wait_progress t.recs.length i more 2 _ (by omega) hinv (quiescent_lock_free _ hinv hq)
+    ⟨t, ht, hpc, rfl⟩ hno h2
+  exact this
+
 /-- The algorithm at the pinned commit violates C02: after the schedule of `legacy_violates_C01`
-all calls have returned, the count is 3 and the sentinel is installed. -/
+all calls have returned, the count is 3 and the closed sentinel is installed … -/
 theorem legacy_violates_C02 :
     let s := run false (init false [[.add 1, .add (-1)], [.wait, .add 1, .add 2, .wait]])
       [0, 0, 0, 1, 1, 1, 1, 1, 1, 1, 1, 0, 0]
     quiescent s = true ∧ s.sh.count = 3 ∧ s.sh.wchan = 0 := by
+  decide
+
+/-- … and in any such state `Wait` retries forever (both loads of an iteration leave it where
+it was), for either algorithm, since `Wait` is the same in both. -/
+theorem wait_spins_when_inconsistent (L : Bool) (sh : Shared) (i : Nat) (t : Thread)
+    (hc : 0 < sh.count) (hw : sh.wchan = 0) (hp : t.pc = .wCount) :
+    let r1 := tstep L sh i t
+    let r2 := tstep L r1.1 i r1.2.1
+    r2.1 = sh ∧ r2.2.1.pc = .wCount ∧ r2.2.1.recs = t.recs := by
+  simp only [tstep, hp]
+  have h1 : ¬ (sh.count = 0 ∨ 0 < sh.count ∧ sh.wchan ≠ 0) := by
+    rintro (h | ⟨_, h⟩)
+    · omega
+    · exact h hw
+  simp [h1]
+
+/-- non-vacuity: a reachable quiescent state with positive count, and a goroutine at the start
+of Wait there, for which the two-step theorem's hypotheses hold with `more = [1, 0, 1]`. -/
+example :
+    let s := run true (init true [[.add 2, .count], [.wait]]) [0, 0, 0, 0]
+    quiescent s = true ∧ s.sh.count = 2 ∧ (∃ t, s.threads[1]? = some t ∧ t.pc = .wCount) ∧
+      NoAddSteps s [1, 0, 1] := by
+  refine ⟨by decide, by decide, by decide, ?_⟩
+  simp only [NoAddSteps]
   decide
 
 end GSync
